@@ -79,6 +79,27 @@ def _case(draw, tier):
             extra = draw(st.sampled_from(cands))
             if extra not in flt["filters"]:
                 flt["filters"].append(extra)
+    if flt is not None and draw(st.integers(0, 4)) == 0:
+        # filters of different kinds with one value ("refresh" next to "type:refresh", "setup" next to "tag:setup"): a task is named like the
+        # operation type or the tag of (other) tasks, and the list holds two or three of <v>, type:<v>, tag:<v> in a drawn order
+        m = S.model(specs[0])
+        values = sorted({l["operation"]["type"] for l in S.leaves(m)} | {t for l in S.leaves(m) for t in l["tags"]})
+        v = draw(st.sampled_from(values))
+        taken = {S.resolved_name(l) for spec in specs for l in S.leaves(spec)}
+        if v not in taken:
+            for spec in specs:
+                elements = [el for el in spec]
+                el = elements[draw(st.integers(0, len(elements) - 1))]
+                leaf = el["tasks"][draw(st.integers(0, len(el["tasks"]) - 1))] if "tasks" in el else el
+                old = S.resolved_name(leaf)
+                leaf["name"] = v
+                if "tasks" in el and el.get("completed-by") == old:
+                    el["completed-by"] = v
+        pair = draw(st.permutations([v, f"type:{v}", f"tag:{v}"]))[: draw(st.sampled_from([2, 2, 3]))]
+        keep = [f for f in flt["filters"] if f not in pair][: draw(st.integers(0, 1))]
+        pos = draw(st.integers(0, len(keep)))
+        flt["filters"] = keep[:pos] + list(pair) + keep[pos:]
+        flt["same_value_across_kinds"] = True
     return {"schedules": specs, "filter": flt, "simulate": draw(st.integers(0, 9)) == 4}
 
 
@@ -321,6 +342,8 @@ def run_case(case, obs):
         obs.cls("no-filter")
     else:
         obs.cls(f"mode:{mode}")
+        if case["filter"].get("same_value_across_kinds"):
+            obs.cls("filters-of-different-kinds-with-one-value")
         for f in filters:
             obs.cls("filter:type" if f.startswith("type:") else "filter:tag" if f.startswith("tag:") else "filter:name")
             if not any(S.filter_matches(f, l) for m in models for l in S.leaves(m)):
